@@ -101,12 +101,79 @@ def check(ctx, case, reqs, pend, shape=None):
                  [int(x) for x in got.reshape(-1).tolist()], ishape))
 
 
+def big_rows(ctx, reqs, pend):
+    """row counts beyond the exact range of float32 / int32 / uint32 words: sparse dimensions built directly from a few
+    entries (no dense array), expected table by set arithmetic"""
+    import itertools
+    from catii import ccube, iindex
+    for N in ([2**24 + 1, 2**24 + 7, 2**31 + 5, 2**32 - 1] if ctx.scale == 1 else
+              [2**24 + 1, 2**24 + 7, 2**24 + 2**12 + 3, 2**31 - 1, 2**31 + 5, 2**32 - 3, 2**32 - 1]):
+        for k in (1, 2):
+            dims, idxs = [], []
+            for _ in range(k):
+                extent = ctx.rng.randrange(2, 4)
+                common = ctx.rng.randrange(extent)
+                ent = {}
+                used = set()
+                for v in range(extent):
+                    if v == common or ctx.rng.random() < 0.3:
+                        continue
+                    rows = sorted(set(ctx.rng.choice([0, 1, 2, 5, N - 1, N - 2, N // 2, 2**24, 2**24 - 1]) for _r in range(ctx.rng.randrange(1, 4))) - used)
+                    rows = [r for r in rows if r < N]
+                    if rows:
+                        used |= set(rows)
+                        ent[(v,)] = np.array(rows, dtype=np.uint32)
+                dims.append((ent, common, extent))
+                idxs.append(iindex(ent, common, (N,)))
+            shape = [e for _, _, e in dims]
+            desc = {"big_N": N, "dims": [{"entries": {str(k_[0]): v.tolist() for k_, v in e.items()}, "common": c} for e, c, _ in dims]}
+            ctx.case(desc)
+            ctx.hit("big_rows")
+            # expected counts: listed categories by set intersection, the common ones by complement
+            def rows_of(d, v):
+                ent, common, _ = d
+                return set(int(x) for x in ent.get((v,), np.array([], dtype=np.uint32)).tolist())
+            exp = np.zeros(shape, dtype=object)
+            for cell in itertools.product(*[range(e) for e in shape]):
+                listed_axes = [a for a, v in enumerate(cell) if v != dims[a][1]]
+                common_axes = [a for a, v in enumerate(cell) if v == dims[a][1]]
+                if listed_axes:
+                    base = set.intersection(*[rows_of(dims[a], cell[a]) for a in listed_axes])
+                    for a in common_axes:
+                        listed_any = set().union(*[rows_of(dims[a], v) for v in range(shape[a]) if v != dims[a][1]]) if shape[a] > 1 else set()
+                        base = base - listed_any
+                    exp[cell] = len(base)
+                else:
+                    any_listed = set()
+                    for a in common_axes:
+                        for v in range(shape[a]):
+                            if v != dims[a][1]:
+                                any_listed |= rows_of(dims[a], v)
+                    exp[cell] = N - len(any_listed)
+            try:
+                cube = ccube(idxs, interacting_shape=tuple(shape))
+                res = np.asarray(cube.count())
+                vals, valid = cube.count(return_missing_as=(0, False))
+            except Exception as e:
+                ctx.oracle_fail("count raised %s: %s" % (type(e).__name__, str(e)[:80]), desc, cls="C02-raises")
+                continue
+            for cell in itertools.product(*[range(e) for e in shape]):
+                want = int(exp[cell])
+                got = res[cell]
+                g = 0 if np.isnan(got) else int(got)
+                if g != want or float(got) != float(want) and want != 0 or int(vals[cell]) != want or bool(valid[cell]) != (want != 0):
+                    ctx.oracle_fail("cell %s of a cube over %d rows: count %r / %r, exact count %d" % (
+                        cell, N, got, vals[cell], want), desc, cls="C02-wrong-count")
+                    break
+
+
 def run(ctx):
     core.load_catii()
     reqs, pend = [], []
     for case in G.exhaustive_small(3, 3, 2):
         check(ctx, case, reqs, pend)
     ctx.exhaustive.append("all lists of 0..3 one-axis dims, N<=3, values<2, every common (inferred shape)")
+    ctx.notes.append("big_rows: sparse 1-2 dim cubes over 2^24+1 .. 2^32-1 rows (counts beyond float32 / int32 exactness), expected by set arithmetic")
     for _ in range(ctx.n(250)):
         case = G.gen_dims(ctx.rng, multi_axis=ctx.rng.random() < 0.4)
         shape = None
@@ -124,6 +191,7 @@ def run(ctx):
             case = dict(dense=dense, commons=commons, extents=[big, 3][:k], modes=["boundary"] * k, N=N)
             ctx.hit("extent_boundary")
             check(ctx, case, reqs, pend, [big, 3][:k])
+    big_rows(ctx, reqs, pend)
     if ctx.oracle_only:
         return
     for (desc, filled, diffed, missing, counts, ishape), m in zip(pend, ctx.model.run(reqs)):
